@@ -69,7 +69,7 @@ def parse_docstring_annotation(
         SyntaxError,  # Annotation contains syntax errors.
         RecursionError,  # Annotation is nested too deeply for the compiler.
         MemoryError,  # Annotation is too complex for the parser ("Parser stack overflowed").
-        ValueError,  # Annotation cannot be encoded (lone surrogates) or contains null bytes.
+        UnicodeEncodeError,  # Annotation cannot be encoded (lone surrogates).
     ):
         code = compile(annotation, mode="eval", filename="", flags=PyCF_ONLY_AST, optimize=2)
         if code.body:  # type: ignore[attr-defined]
